@@ -965,6 +965,8 @@ class EmptyRun:
             return False
         if isinstance(e, ast.Subscript) and isinstance(e.slice, ast.Slice):
             return self.iter_empty(e.value, depth + 1)
+        if isinstance(e, (ast.GeneratorExp, ast.ListComp, ast.SetComp, ast.DictComp)):
+            return self.iter_empty(e.generators[0].iter, depth + 1)  # a comprehension over nothing yields nothing
         if isinstance(e, ast.Name):
             node = self.unit.cfg.node_of(e)
             defs = self.unit.rd.reaching(node, e.id) if node is not None else frozenset()
